@@ -572,6 +572,13 @@ Proof.
     intros ls Hls l Hl. exact (proj1 (Hls l Hl)).
 Qed.
 
+Lemma WI_into_lines_markers b :
+  WI b -> okp (fun lm => forall l, In l (fst lm) -> cons_line l) (wb_into_lines_markers b).
+Proof.
+  intros H. apply WI_into_lines in H. rewrite wb_into_lines_of_markers in H.
+  destruct (wb_into_lines_markers b); exact H.
+Qed.
+
 Lemma WI_take_frags b : WI b -> WI (fst (take_trailing_fragments b)).
 Proof.
   intros [H|H].
@@ -715,8 +722,8 @@ Proof.
   - pose proof (WI_take_frags w) as Hw1.
     destruct (take_trailing_fragments w) as [w1 frags]. cbn [fst] in Hw1.
     pose proof Hs as (H1 & H2 & H3 & H4).
-    eapply okp_bind; [apply WI_into_lines, Hw1, H3, Ew|].
-    intros ls Hls. cbn [okp].
+    eapply okp_bind; [apply WI_into_lines_markers, Hw1, H3, Ew|].
+    intros [ls mk] Hls. cbn [okp fst snd] in *.
     assert (Hs0 : sub_t (set_wrapping s None)).
     { unfold sub_t. sprj. repeat split; auto. intros ? [=]. }
     destruct (extend_lines_t (map RText ls) _ Hs0) as (A & B & C).
